@@ -252,6 +252,24 @@ func (l *lockedBuf) contains(s string) bool {
 
 const startupMarker = "verif-c09-startup-marker"
 
+// stallEpoch counts the scheduling stalls of this process: a goroutine that sleeps 50 ms at a time and
+// finds itself woken more than 400 ms late. A frozen or badly starved machine (the sandbox shares its
+// cores) makes every timeout of the harness and of the application meaningless, so a case during which
+// the epoch moved is discarded, whatever it observed.
+var stallEpoch atomic.Int64
+
+func watchStalls() {
+	last := time.Now()
+	for {
+		time.Sleep(50 * time.Millisecond)
+		now := time.Now()
+		if now.Sub(last) > 450*time.Millisecond {
+			stallEpoch.Add(1)
+		}
+		last = now
+	}
+}
+
 // caseDeadline: every legitimate case is over within ~3 s (two 1 s budgets plus work); a case that takes
 // longer than this has a Start that does not return.
 const caseDeadline = 12 * time.Second
@@ -916,6 +934,7 @@ type obsT struct {
 	Reqs    []int // 1 complete, 0 not, 2 n/a (never released before Start returned)
 	Rounds  []int
 	Discard string
+	Retried []string // why earlier attempts at this case were discarded
 	Notes   []string
 	Err     string
 }
@@ -955,6 +974,7 @@ func (r *runner) run() obsT {
 		defer r.collector.Close()
 	}
 	r.t0 = time.Now()
+	epoch0 := stallEpoch.Load()
 	if err := r.build(); err != nil {
 		return obsT{Discard: "app.New: " + err.Error()}
 	}
@@ -1018,7 +1038,17 @@ func (r *runner) run() obsT {
 		}
 	}
 	o := obsT{Discard: r.discard, Notes: r.notes}
+	if o.Discard == "" && stallEpoch.Load() != epoch0 {
+		o.Discard = "the machine stalled during the case (scheduling gap > 400 ms)"
+	}
 	if hung {
+		// where is Start? (goes into the comment of the case line, for the reader of a replay file)
+		if blk := goroutineBlock(r.startGID.Load()); blk != "" {
+			if len(blk) > 900 {
+				blk = blk[:900]
+			}
+			o.Err = "Start goroutine: " + strings.ReplaceAll(blk, "\n", " | ")
+		}
 		// Start never returned: release everything so that the goroutines can go away, and keep what is
 		// left of this case from sending signals into later cases
 		r.abandoned.Store(true)
@@ -1064,6 +1094,9 @@ func (r *runner) run() obsT {
 	o.Fin = r.fin
 	o.Rounds = append([]int(nil), r.roundRes...)
 	o.Err = r.errText
+	if o.Discard == "" && stallEpoch.Load() != epoch0 {
+		o.Discard = "the machine stalled during the case (scheduling gap > 400 ms)"
+	}
 	if o.Discard == "" && !r.timingForced() {
 		o.Discard = "timing could not be forced (environment late against a 1 s budget)"
 	}
@@ -1315,6 +1348,9 @@ func emit(id string, sc *Scenario, o obsT, st *hx.Stats) string {
 		for _, n := range o.Notes {
 			st.Count("note_" + strings.ReplaceAll(n, " ", "_"))
 		}
+		for _, why := range o.Retried {
+			st.Count("retried: " + firstWords(why, 4))
+		}
 		st.Count(fmt.Sprintf("loglen_%02d", min(len(o.Log)/5*5, 40)))
 	}
 	type cmt struct {
@@ -1325,14 +1361,30 @@ func emit(id string, sc *Scenario, o obsT, st *hx.Stats) string {
 	return l.String() + hx.Comment(cmt{sc, o.Err, o.Notes})
 }
 
+// runScenario runs the scenario; an attempt that had to be discarded (machine stall, late harness
+// goroutine, port taken by somebody else) is repeated up to twice, and the reasons travel with the result.
+func firstWords(s string, n int) string {
+	f := strings.Fields(s)
+	if len(f) > n {
+		f = f[:n]
+	}
+	return strings.Join(f, " ")
+}
+
 func runScenario(id string, sc *Scenario) obsT {
 	var o obsT
+	var retried []string
 	for attempt := 0; attempt < 3; attempt++ {
 		r := &runner{id: id, sc: sc, appPort: allocPort(), metPort: allocPort()}
 		o = r.run()
 		if o.Discard == "" {
-			return o
+			break
 		}
+		retried = append(retried, o.Discard)
+	}
+	o.Retried = retried
+	if o.Discard != "" {
+		o.Retried = retried[:len(retried)-1]
 	}
 	return o
 }
@@ -1352,6 +1404,7 @@ func main() {
 	}
 	// net/http reports the probes that hang up during a TLS handshake through the standard logger
 	log.SetOutput(io.Discard)
+	go watchStalls()
 	// a stray SIGHUP must never kill the harness
 	guard := make(chan os.Signal, 8)
 	signal.Notify(guard, syscall.SIGHUP)
@@ -1435,6 +1488,7 @@ func main() {
 				}
 			} else if st != nil {
 				st.Count("discarded")
+				st.Count("discarded: " + firstWords(j.o.Discard, 4))
 			}
 			continue
 		}
